@@ -35,6 +35,9 @@ def check(run):
                  EQ + ({'S': 14, 'N': 16, 'concrete': two, 'long_answers': True, 'pending': 0, 'max_empty': 0},), 900, True))
     if thorough:
         plan.append(('real run: "X;A:X:Q?" then "A:X:Q?", long answers, N=24', EQ + ({'S': 16, 'N': 24, 'concrete': (b'X;A:X:Q?\nA:X:Q?\n').hex(), 'long_answers': True, 'pending': 0, 'max_empty': 0},), 2400, False))
+    LIB = ('mirsym.checks.process_level', 'LibraryProcess')
+    plan.append(('real run: streams of 1..2 messages from a library of 13 realistic messages (queries, failing queries, execution faults after the path moved, relative follow-ups, strings), N=16, every chunking: '
+                 'handlers and responses must be those of the messages taken one at a time', LIB + ({'k': 2, 'N': 16, 'max_len': 13 if not thorough else 16},), 1500, True))
     done_b = []
     for name, spec, secs, req in plan:
         st = run.explore(name, spec, secs, required=req)
@@ -84,6 +87,9 @@ def check(run):
 
 
 def confirm(run, v):
+    if v['rule'] == 'LIBRARY':
+        from ..checks.process_level import confirm_library
+        return confirm_library(run, v)
     if v.get('abstract'):
         from ..checks.abstract_process import find_real_instance
         return find_real_instance(run, v)
